@@ -12,15 +12,6 @@ pub fn bx<T: BoxIt<Bx>>(t: T) -> Bx {
   t.box_it()
 }
 
-/// counters a pipeline may bump (shared between the harness and closures)
-#[derive(Default, Debug, Clone)]
-pub struct Counters {
-  pub finalize_calls: usize,
-  pub tap_calls: usize,
-  pub src_calls: usize,
-  pub on_complete_calls: usize,
-  pub on_error_calls: usize,
-}
 
 /// everything a pipeline is wired to
 #[derive(Clone)]
@@ -285,14 +276,6 @@ pub fn build(node: &Node, env: &Env) -> Bx {
 
 // ------------------------------------------------------------- probe -------
 
-#[derive(Clone, Debug, PartialEq)]
-pub struct Rec {
-  pub ev: Ev,
-  /// index of the script step during which the event was delivered (usize::MAX = at subscription)
-  pub step: usize,
-  /// virtual time of delivery, in ticks
-  pub vt: u64,
-}
 
 #[derive(Clone)]
 pub struct Probe {
@@ -370,4 +353,105 @@ pub fn emit(env: &Env, kind: InputKind, i: usize, ev: &Ev) {
       }
     }
   }
+}
+
+
+fn conv_mode(m: SchedMode) -> crate::vtime::Mode {
+  match m {
+    SchedMode::Fifo => crate::vtime::Mode::Fifo,
+    SchedMode::Lazy => crate::vtime::Mode::Lazy,
+    SchedMode::AnyOrder => crate::vtime::Mode::AnyOrder,
+  }
+}
+fn conv_kind(k: IKind) -> InputKind {
+  match k {
+    IKind::Subject => InputKind::Subject,
+    IKind::Create => InputKind::Create,
+    IKind::Behavior => InputKind::Behavior,
+  }
+}
+
+/// run a pipeline case on the real library (single thread, virtual time)
+pub fn exec(case: &PCase, sample_closed: bool) -> Trace {
+  use crate::vtime;
+  vtime::reset(conv_mode(case.mode));
+  crate::stamp::set(crate::stamp::AT_SUBSCRIBE);
+  let env = Env::new(case.kinds.len().max(1));
+  let p = build(&case.node, &env);
+  let probe = Probe::new();
+  let mut sub: Option<BSub> = Some(p.actual_subscribe(probe.clone()));
+  let mut guard: Option<SubscriptionGuard<BSub>> = None;
+  let mut tr = Trace::default();
+  let prompt = case.mode == SchedMode::Fifo;
+  if prompt {
+    vtime::run_until_stalled();
+  }
+  if sample_closed {
+    if let Some(s) = &sub {
+      tr.closed.push((usize::MAX, s.is_closed()));
+    }
+  }
+  let uses_guard = case.script.iter().any(|s| matches!(s, Step::DropGuard));
+  if uses_guard {
+    guard = sub.take().map(|s| s.unsubscribe_when_dropped());
+  }
+  for (k, st) in case.script.iter().enumerate() {
+    crate::stamp::set(k);
+    match st {
+      Step::Emit(i, ev) => {
+        let i = *i % case.kinds.len().max(1);
+        emit(&env, conv_kind(case.kinds[i]), i, ev);
+        if prompt {
+          vtime::run_until_stalled();
+        }
+      }
+      Step::Advance(n) => vtime::advance(ticks(*n), prompt),
+      Step::FireNext => {
+        vtime::fire_next_timer();
+        if prompt {
+          vtime::run_until_stalled();
+        }
+      }
+      Step::Run => vtime::run_until_stalled(),
+      Step::RunReady(j) => {
+        let n = vtime::ready_count();
+        if n > 0 {
+          vtime::run_ready(*j % n);
+        }
+      }
+      Step::Unsub => {
+        if let Some(s) = sub.take() {
+          s.unsubscribe();
+          tr.unsub_at = Some(k);
+        }
+      }
+      Step::DropGuard => {
+        if let Some(g) = guard.take() {
+          drop(g);
+          tr.unsub_at = Some(k);
+        }
+      }
+    }
+    if sample_closed {
+      if let Some(s) = &sub {
+        tr.closed.push((k, s.is_closed()));
+      }
+    }
+  }
+  // let everything that is still scheduled run (bounded: periodic sources never end)
+  crate::stamp::set(case.script.len());
+  tr.quiescent = vtime::drain(12);
+  if sample_closed {
+    if let Some(s) = &sub {
+      tr.closed.push((case.script.len(), s.is_closed()));
+    }
+  }
+  tr.recs = probe.recs();
+  tr.counters = lock!(env.counters).clone();
+  tr.live_tasks_end = vtime::live_tasks();
+  tr.pending_timers_end = vtime::pending_timers();
+  tr.status_flags = lock!(env.statuses).iter().map(|s| (s.is_completed(), s.error_occur())).collect();
+  std::mem::forget(guard); // a guard never dropped by the script must not unsubscribe behind our back
+  drop(sub);
+  tr
 }
